@@ -1,5 +1,6 @@
 """The `union` workload: programs from every family, with seeded faults - used by C02 and C03."""
 import importlib
+import math
 
 from .faults import CAGE_OF, fault_for, iter_actors
 
@@ -38,6 +39,17 @@ def generate(rng, faults=True, families=None):
     return case
 
 
+def fault_tick(rng, short=90):
+    """Kernel event at which a fault of a random plan strikes. Programs of the union have from a
+    dozen to a few thousand kernel events (41 % have more than 90, measured): half of the faults
+    fall into the first `short` events - where every program still runs - and half are drawn
+    log-uniformly from 1..3000, so that the late phases of long programs (drains, probers, hand-
+    backs, the tail of C20 / C19 / mixed / C12 programs) are struck as often as the early ones."""
+    if rng.random() < 0.5:
+        return rng.randint(1, short)
+    return max(1, int(math.exp(rng.uniform(0.0, math.log(3000.0)))))
+
+
 def add_faults(case, rng, max_faults=3):
     actors = [spec for spec in iter_actors(case["scenario"])
               if not spec["name"].startswith(("z", "root"))]
@@ -53,13 +65,13 @@ def add_faults(case, rng, max_faults=3):
             kind, cage = "cancel", None
         if cage:
             spec["cage"] = cage
-        tick = rng.randint(1, 90)
+        tick = fault_tick(rng)
         case["plan"].append(fault_for(kind, spec["name"], tick, token=("f", tick)))
         if rng.random() < 0.2:         # double: the same victim again, right away or a bit later
             case["plan"].append(fault_for(kind, spec["name"], tick + rng.choice([0, 1, 2, 5]),
                                           token=("g", tick)))
     if rng.random() < 0.15:
-        case["plan"].append({"tick": rng.randint(1, 60), "kind": "gc"})
+        case["plan"].append({"tick": fault_tick(rng, 60), "kind": "gc"})
 
 
 def execute(case, setup=None):
